@@ -237,6 +237,7 @@ def gen_moasha_case(rng):
     prio = rng.choice(["nd", "nd1", "fixed", "linear", "ndk", "ndk"])
     max_num_samples = rng.choice([1, 2, 3, 5])
     ntrials = rng.randint(2, 9)
+    key_order = rng.choice([0, 0, rng.randint(1, 10 ** 6)])
     # event schedule: interleaving of per-trial consecutive reports
     cursors = {t: 0 for t in range(ntrials)}
     assign = {t: rng.randrange(brackets) for t in range(ntrials)}
@@ -250,7 +251,7 @@ def gen_moasha_case(rng):
         cursors[t] += 1
         vals = [float(rng.randint(0, grid)) if grid < 100 else rng.uniform(0, 1) for _ in range(nmet)]
         evs.append((t, cursors[t], vals))
-    return dict(metrics=metrics, mode=mode, rf=rf, grace=grace, max_t=max_t, brackets=brackets, prio=prio, max_num_samples=max_num_samples,
+    return dict(metrics=metrics, mode=mode, rf=rf, grace=grace, max_t=max_t, brackets=brackets, prio=prio, max_num_samples=max_num_samples, key_order=key_order,
                 assign={str(k): v for k, v in assign.items()}, evs=evs)
 
 
@@ -287,6 +288,7 @@ def moasha_sequences(ctx, replay):
         signs = [(1.0 if (mode if isinstance(mode, str) else mode[i]) == "min" else -1.0) for i in range(nmet)]
         stopped = set()
         added = set()
+        reported_vectors = set()
         ev_terms = []
         decisions = []
         nontriv = False
@@ -302,14 +304,25 @@ def moasha_sequences(ctx, replay):
                 with mock.patch("numpy.random.choice", lambda n, p=None: bi), contextlib.redirect_stdout(sink):
                     sch.on_trial_add(trial)
                 added.add(t)
-            result = {"epoch": it}
-            result.update({m: v for m, v in zip(spec["metrics"], vals)})
+            # the reported dict lists its keys in a scripted order (not necessarily the order of `metrics`)
+            items = [("epoch", it)] + list(zip(spec["metrics"], vals)) + [("other", 0.5)]
+            order = spec.get("key_order")
+            if order:
+                rnd = __import__("random").Random(order * 7919 + t * 31 + int(it))
+                rnd.shuffle(items)
+            result = dict(items)
             ncalls = len(rec.calls)
             dec = sch.on_trial_result(trial, result)
             decisions.append(dec)
             signed = [s * v for s, v in zip(signs, vals)]
+            reported_vectors.add(tuple(signed))
             if len(rec.calls) > ncalls:
                 mat, pr = rec.calls[-1]
+                # the objective matrix handed to the priority must consist of the recorded trials' metrics,
+                # each in the DECLARED order of `metrics` (per-metric sign applied), own vector last
+                if viol is None and (list(mat[-1]) != signed or any(tuple(r) not in reported_vectors for r in mat)):
+                    viol = dict(event=[t, it, vals], matrix=mat, own_signed=signed, decision=dec,
+                                expected="objective vectors in the order of `metrics`", kind="matrix")
                 if len(mat) >= 2:
                     nontriv = True
                 # checker on the implementation decision: 'continue exactly when the trial's priority rank
@@ -345,7 +358,13 @@ def moasha_sequences(ctx, replay):
         ctx.h("moasha_prio", spec["prio"])
         ctx.h("moasha_decisions", "STOP", decisions.count("STOP"))
         ctx.h("moasha_decisions", "CONTINUE", decisions.count("CONTINUE"))
-        if viol is not None:
+        if viol is not None and viol.get("kind") == "matrix":
+            ctx.violation("property",
+                          "MOASHA ranked a trial on an objective vector %s that is not its reported metrics %s in the "
+                          "declared order of `metrics`" % (viol["matrix"][-1], viol["own_signed"]),
+                          case=dict(kind="moasha", spec=spec, first_bad=viol),
+                          signature=dict(scheduler="MOASHA", defect="objective_vector_not_in_metrics_order"))
+        elif viol is not None:
             ctx.violation("property",
                           "MOASHA decided %s for a trial whose priority rank requires %s (priority=%s, rf=%s)" % (
                               viol["decision"], viol["expected"], spec["prio"], spec["rf"]),
